@@ -24,6 +24,7 @@ type Obligation struct {
 	Unit     *Unit
 	Props    []string
 	FuncKey  string
+	nLines   int      // the obligation sees the unit's script up to here: what is assumed later (e.g. the invariant of a loop entered afterwards) is not available to it
 	Advisory bool     // a cover whose failure is reported as a note, not as a violation
 	Extra    []string // extra assertions local to this obligation
 	Parts    []string // when set: the goal is the conjunction of these; each part is solved separately
@@ -76,6 +77,7 @@ type Unit struct {
 	entryHeld map[string][]string
 	witnesses []string
 	collectW  bool
+	lateFrom    map[int]int     // script lines that obligations may use although emitted later (facts about a loop-header state established when the loop has been translated): line -> smallest script length at which an obligation may see it
 	beforeSeen  map[string]bool // callees named in 'before' clauses that were actually met
 	hypsV       []hyp     // assumed forallv (typed, unbounded) clauses
 	keyCands    []keyCand // map keys mentioned while translating the current goal
@@ -397,7 +399,7 @@ const allocKey = "$alloc"
 
 func (u *Unit) addObl(kind, desc, pos, reach, goal string) *Obligation {
 	u.kindCount[kind]++
-	o := &Obligation{Name: fmt.Sprintf("%s#%s:%d", u.Name, kind, u.kindCount[kind]), Kind: kind, Desc: desc, Pos: pos, Reach: reach, Goal: goal, Unit: u, FuncKey: u.FuncKey}
+	o := &Obligation{Name: fmt.Sprintf("%s#%s:%d", u.Name, kind, u.kindCount[kind]), Kind: kind, Desc: desc, Pos: pos, Reach: reach, Goal: goal, Unit: u, FuncKey: u.FuncKey, nLines: len(u.lines)}
 	if u.contract != nil {
 		o.Props = u.contract.Props
 	}
@@ -443,6 +445,14 @@ func (o *Obligation) scriptV(withModel bool, variant int, goal string) string {
 	}
 	sb.WriteString("(set-logic ALL)\n")
 	for i, l := range o.Unit.lines {
+		if i >= o.nLines && strings.HasPrefix(l, "(assert") {
+			// assumptions made after this obligation was generated are not available to it, except
+			// the facts about the header state of a loop it lies in (declarations and definitions
+			// are always kept: they assume nothing)
+			if from, ok := o.Unit.lateFrom[i]; !ok || o.nLines < from {
+				continue
+			}
+		}
 		if instancesOnly && o.Unit.quantHypLines[i] {
 			continue
 		}
